@@ -121,11 +121,11 @@ def run_check(pid, tier, seed, keep=False):
                 run.machinery.append("build error outside any program: %s" % es[0]["msg"])
                 return finish(run, built, programs, [])
             regs = set(e["region"] for e in es)
-            if regs <= {"enum", "api"}:
+            if regs <= {"enum", "api"} or "api" in regs:
                 if prog.role == "pivot" or "api" in regs:
                     path = write_replay_file(run, prog, None, None, None, extra={
                         "build_violation": True, "rustc_diagnostics": [e["context"] for e in es][:5]})
-                    what = "program %s no longer builds: %s" % (prog.name, es[0]["msg"])
+                    es = sorted(es, key=lambda e: 0 if e["region"] == "api" else 1 if e["region"] == "enum" else 2)
                     k = match_known(known, pid, "build:" + prog.name, es[0]["msg"] + " " + prog.note)
                     rec = {"program": prog.name, "harness": "build", "check": es[0]["msg"], "replay": path,
                            "build_violation": True, "note": prog.note}
